@@ -203,6 +203,15 @@ static Input gen_input(Tape &t) {
     in.files[in.main] = gm::soup(t, true, 30);
     in.kind = "soup";
   }
+  if (t.chance(1, 8)) {
+    // the caller may supply a file with the name of the hidden standard-macro file: it then replaces the hidden
+    // one (same two rules here, shifted down by some lines, so the program keeps its meaning)
+    std::string shift((size_t)(1 + t.pick(40)), '\n');
+    in.files["__standards__"] = shift +
+                                "DEFINE PRIO 1000000 <ID> + <INT> AS RUN __INC__ WITH $0, $1 END END DEFINE\n"
+                                "DEFINE PRIO 1000000 <ID> - <INT> AS RUN __DEC__ WITH $0, $1 END END DEFINE\n";
+    in.kind += "+own-standards-file";
+  }
   return in;
 }
 
